@@ -70,9 +70,23 @@ def make_msg(tag, bad=False):
     m.destination_realm = b"verif.example"
     m.service_context_id = "verif@example"
     m.cc_request_type = 1
-    m.cc_request_number = "not-a-number" if bad else 0
+    m.cc_request_number = 0
     m.header.hop_by_hop_identifier = abs(hash(tag)) & 0x7fffffff or 1
     m.header.end_to_end_identifier = 7
+    if bad:
+        # several ways of being unencodable: an AVP value of the wrong type, header fields that are not integers
+        # or do not fit their width
+        k = sum(map(ord, tag)) % 5
+        if k == 0:
+            m.cc_request_number = "not-a-number"
+        elif k == 1:
+            m.header.hop_by_hop_identifier = None
+        elif k == 2:
+            m.header.end_to_end_identifier = "seven"
+        elif k == 3:
+            m.header.application_id = 1 << 40
+        else:
+            m.header.command_code = None
     return m
 
 
